@@ -1,9 +1,11 @@
 import QibModel.Compact
+import QibModel.CompactSpec
 import QibModel.PauliOps
 /-!
 Driver ops of the compact encoding (C13): `compact.vertex`, `compact.edge`, `compact.loop`, `ofc.face`,
 `compact.encode`, plus `compact.closed` (the closed-layer strings the theorems are about, so that the harness
-can compare them with the literal layer and with the code as well).
+can compare them with the literal layer and with the code as well) and `compact.chain` (spectral part, C13Spec: the
+encoded operator, its conjugate by the Pauli string `chainW`, and the Jordan-Wigner encoding of `fermiOp`).
 Replies: `{"val": …}` or `{"raised": "<ExceptionClass>"}`; rationals as `"p/q"`, weights as `[re, im]`.
 -/
 open Lean
@@ -97,5 +99,22 @@ def opEncode (j : Json) : Except String Json := do
   return exJson (fun (r : PauliOp GQ × Nat) =>
     Json.mkObj [("nsites", jNat r.2), ("herm", .bool r.1.isHermitian),
       ("strings", .arr (r.1.map fun (P, w) => Json.arr #[psJson P, gqJson w]).toArray)]) (encode inp)
+
+/-- `compact.chain`: for a shape and coefficient matrices, the compact-encoded operator, the unitary `chainW` of the chain
+theorem as a Pauli string, the encoded operator conjugated by it (canonical form: phases in the weights), and the
+Jordan-Wigner encoding (C11 model) of the field operator `fermiOp` (as returned, and in canonical form) -/
+def opChain (j : Json) : Except String Json := do
+  let (n0, n1) ← parseShape (← field j "shape")
+  let terms ← listOf parseTerm (← field j "terms")
+  let inp : Input := ⟨1, true, true, [n0, n1], [false, false], terms⟩
+  let W := chainW n0 n1
+  match encode inp with
+  | .error e => return raised e
+  | .ok (op, n) =>
+    match Encode.encode .jw (fun w => w.absLe 0) (fermiOp n0 n1 terms) with
+    | .error e => return Json.mkObj [("raised", .str e.toStr)]
+    | .ok jw =>
+      return val (Json.mkObj [("nsites", jNat n), ("W", psJson W), ("compact", opJson op),
+        ("conj", opJson (canonOp (conjOp W op))), ("jwraw", opJson jw), ("jw", opJson (canonOp jw))])
 
 end Qib.Compact
